@@ -55,6 +55,36 @@ def main():
             print("%-40s %s  STALE-MUTATION %s" % (name, pid, e), flush=True)
         finally:
             sh("git -C %s checkout -- ." % REPO)
+    # the independently seeded changes (seeded/<id>/patch.diff) are replayed the same way
+    import glob
+    import json
+    import re
+    for m in sorted(glob.glob(os.path.join(VERIF, "seeded", "*", "meta.json"))):
+        sid = os.path.basename(os.path.dirname(m))
+        name = "seed:" + sid
+        if sel and not any(s in name for s in sel):
+            continue
+        meta = json.load(open(m))
+        pid = meta["property"]
+        rules = re.findall(r"C\d\d\.\d[a-z]?", " ".join(meta["caught_by"]))
+        try:
+            ap = sh("git -C %s apply %s" % (REPO, os.path.join(os.path.dirname(m), "patch.diff")))
+            assert ap.returncode == 0, "patch does not apply: " + ap.stdout[-200:]
+            hit = False
+            nv = 0
+            for q in [pid] + meta.get("also", []):
+                r = sh("./nvs.sh check %s" % q, cwd=VERIF)
+                viol = [l for l in r.stdout.splitlines() if l.startswith("VIOLATION")]
+                nv += len(viol)
+                if viol and (q != pid or not rules or any(("key " + x) in r.stdout for x in rules if x.startswith(pid))):
+                    hit = hit or q == pid
+            results.append((name, pid, "CAUGHT" if hit else "MISSED", nv))
+            print("%-40s %s  %s (%d violations)" % (name, pid, "CAUGHT" if hit else "MISSED", nv), flush=True)
+        except AssertionError as e:
+            results.append((name, pid, "STALE", 0))
+            print("%-40s %s  STALE-SEED %s" % (name, pid, e), flush=True)
+        finally:
+            sh("git -C %s checkout -- ." % REPO)
     bad = [r for r in results if r[2] != "CAUGHT"]
     print("selftest: %d mutations, %d caught, %d not" % (len(results), len(results) - len(bad), len(bad)))
     return 1 if bad else 0
